@@ -6,6 +6,7 @@ import (
 	"go/parser"
 	"go/token"
 	"path/filepath"
+	"sort"
 
 	"github.com/bmatcuk/doublestar/v4"
 	MapSet "github.com/deckarep/golang-set/v2"
@@ -47,9 +48,17 @@ func (facade *PackagesFacade) FSet() *token.FileSet {
 }
 
 func (facade *PackagesFacade) GetAllSourceFiles() []*ast.File {
-	result := make([]*ast.File, 0, len(facade.files))
-	for _, file := range facade.files {
-		result = append(result, file)
+	// Files are handed out ordered by their path; the order decides the order of a controller's routes
+	// so it must not follow map iteration order
+	paths := make([]string, 0, len(facade.files))
+	for path := range facade.files {
+		paths = append(paths, path)
+	}
+	sort.Strings(paths)
+
+	result := make([]*ast.File, 0, len(paths))
+	for _, path := range paths {
+		result = append(result, facade.files[path])
 	}
 	return result
 }
